@@ -41,6 +41,7 @@ cases={
 "urlparamsubstring": (ctl("urlparamsubstring","// @Method(GET)\n// @Route(/items/{item})\n// @Query(item)\nfunc (c *C) M(item string) error { return nil }\n"),"reject"),
 "bodyalias": (ctl("bodyalias","type Note struct {\n\tText string `json:\"text\"`\n}\n\ntype NoteAlias Note\n\n// @Method(POST)\n// @Route(/x)\n// @Body(b)\nfunc (c *C) M(b NoteAlias) error { return nil }\n"),"any"),
 "bodygeneric": (ctl("bodygeneric","type Note struct {\n\tText string `json:\"text\"`\n}\n\ntype Page[T any] struct {\n\tItems []T `json:\"items\"`\n}\n\n// @Method(POST)\n// @Route(/x)\n// @Body(b)\nfunc (c *C) M(b Page[Note]) error { return nil }\n"),"any"),
+"unexportedroute": (ctl("unexportedroute","// @Method(GET)\n// @Route(/ping)\nfunc (c *C) Ping() error { return nil }\n\n// @Method(DELETE)\n// @Route(/purge)\nfunc (c *C) purge() error { return nil }\n"),"any"),
 "warnonly": (ctl("warnonly","// @Method(GET)\n// @Route(/x)\nfunc (c *C) M() error { return nil }\n\n// @Method(GET)\n// @Route(/x)\nfunc (c *C) M2() error { return nil }\n"),"accept"),
 }
 for n,(src,exp) in cases.items():
